@@ -9,3 +9,9 @@ import DateutilVerif.Properties.C03
 #print axioms C03.promotion_iff_hasTime
 #print axioms C03.errors_only_out_of_range
 #print axioms C03.yearday366_witness
+#print axioms C03.yearday_spec_partial
+#print axioms C03.nlyearday_spec
+#print axioms C03.yearday366_defect
+#print axioms C03.C08bridge_applyDelta
+#print axioms C03.C08bridge_J
+#print axioms C03.C08bridge_N
